@@ -32,10 +32,18 @@ def main(argv=None):
         ctx = runner.Ctx(pid, tier, seed, getattr(mod, "LEVEL", "model_checking"))
         if a.selftest:
             return int(mod.selftest(ctx) or 0)
-        if a.replay and hasattr(mod, "replay"):
-            mod.replay(ctx, rp)
-        else:
-            mod.run(ctx)
+        try:
+            if a.replay and hasattr(mod, "replay"):
+                mod.replay(ctx, rp)
+            else:
+                mod.run(ctx)
+        except Exception as e:  # noqa: BLE001
+            # violations that are not listed findings were already established when a later stage of the check broke down (typically
+            # because the code under test misbehaves there too): they stand; the breakdown is recorded as a note
+            if not ctx.unlisted_violations():
+                raise
+            traceback.print_exc()
+            ctx.note(f"a later stage of the check did not complete ({type(e).__name__}: {e}"[:300] + "); the violations above were established before it")
         rc = ctx.finish()
         if a.replay:
             want = rp.get("sig")
